@@ -31,10 +31,30 @@ CHECKS = {
         'technique': TABLE_TECH, 'engine': 'table-harness'},
 }
 
+TRACE_TECH = 'Lean 4 theorem by induction over the listener-event trace (invariant preserved by every well-formed event, any number of transactions/flushes/entities) + trace correspondence check (real SQLAlchemy+continuum run vs Lean step function, oracle = Lean Holds predicate on the real tables)'
+TRACE_NOTE = COMMON_NOTE + ('Modelled not verified: SQLAlchemy\'s unit of work (the contract EvOK/WF: fresh increasing transaction ids, one mapper event per object per flush, history flags consistent with stored values, commit flushes first) - assumed by the theorems and monitored on every recorded trace; atomic commit/rollback of the DBMS. Single connection (C09 treats several). Savepoint rollback is excluded from WF (C06).')
+
+CHECKS.update({
+    'C02': {
+        'text': 'Theorem c02_holds: for every configuration, every boundary state satisfying the invariant Inv and every well-formed event list, the database transaction the model performs satisfies C02.Holds (old records kept, at most one new record with a larger id, every new version/association row carries it, no dangling ids, no record without cause); inv_init/inv_step/inv_run prove Inv for every reachable state. Tied to unit_of_work.py/manager.py by replaying recorded listener traces through the model and comparing the transaction table and current-transaction bookkeeping after every step; C02.Holds is evaluated on the real tables per database transaction.',
+        'note': TRACE_NOTE + ' Plugin-supplied transaction attributes (Flask / meta plugins) are not modelled.',
+        'technique': TRACE_TECH, 'engine': 'trace-harness'},
+    'C03': {
+        'text': 'Theorem c03_chain: after every event of every well-formed trace from the empty database, under strategy=validity, every version table (each table of a joined hierarchy, keyed (table, primary key)) satisfies Chain (end id = next id of the same key, NULL exactly for the newest); the one-write lemma chain_writeVersion covers first and repeated writes in a transaction. Tied to update_version_validity / _transaction_id_subquery by trace correspondence on the (table,key,tx,end) skeleton after every flush and commit; Chain is evaluated on the real tables.',
+        'note': TRACE_NOTE,
+        'technique': TRACE_TECH, 'engine': 'trace-harness'},
+    'C12': {
+        'text': 'Theorem c12_derive_ok: for every well-formed single-table configuration the model derivation satisfies the decidable statement SchemaOK of C12 (name/schema, stripped parent columns, key + non-null transaction column, nullable rest, end column iff validity, operation type, flag columns, nothing else); c13_no_column, include_beats_exclude. The REAL builder output is (1) compared with the model, (2) judged by SchemaOK in the driver and (3) for a sample of configurations written into a generated Lean file where `SchemaOK cfg actual` is kernel-checked on every run (translation validation); plus create_all + NULL-row round trip and the inverse class maps.',
+        'note': COMMON_NOTE + 'The universal claim over configurations of the REAL builder rests on the sampled correspondence; type identity through repr(type); single-table-inheritance extension step and the inheritance mapper arguments are covered by comparing final tables only.',
+        'technique': 'Lean 4 theorem over all configurations of the model derivation + per-run kernel-checked translation validation of the real builder output (decide +kernel) + differential correspondence', 'engine': 'config-harness'},
+})
+
 NOT_APPLICABLE = {}
 
 ENGINES = [
     {'name': 'lean-model', 'path': 'lean/', 'serves_properties': sorted(CHECKS), 'kind_free_text': 'Lake project Continuum: model (core Lean), Spec (decidable Holds predicates), Props (theorems), Driver.lean (line protocol)'},
+    {'name': 'trace-harness', 'path': 'harness/props/traces.py', 'serves_properties': ['C01', 'C02', 'C03', 'C11', 'C13', 'C17'], 'kind_free_text': 'runs generated session programs on the real code, records the listener-level event trace and database/manager dumps, replays through the Lean model, evaluates Holds on real segments'},
+    {'name': 'config-harness', 'path': 'harness/props/c12.py', 'serves_properties': ['C12'], 'kind_free_text': 'samples configurations, serialises the real MetaData, compares with the Lean derivation, generates kernel-checked Lean obligations'},
     {'name': 'table-harness', 'path': 'harness/props/tables.py', 'serves_properties': ['C08', 'C15', 'C16', 'C19', 'C20'], 'kind_free_text': 'fills real version tables directly, runs the real accessor/tool, compares with the Lean model'},
 ]
 
